@@ -449,6 +449,7 @@ pub fn check(ctx: &mut Ctx) {
 	ctx.assumptions = vec!["serde_json::from_str is the reference 'plain JSON parse'".into()];
 	ctx.run_sub(&Sequence);
 	corpus_replay(ctx);
+	fuzz_campaign(ctx, "c16_params", 5_000_000, 256);
 }
 
 pub fn replay(file: &serde_json::Value) -> Option<i32> {
